@@ -94,6 +94,8 @@ class World:
             u = UNIVERSAL.index(ID)
             if u < self.nc:
                 out[u] = val(arr[i])
+                if abs(float(arr[i]) - round(float(arr[i]))) > 1e-9 * max(1., abs(float(arr[i]))):
+                    out[u] = -777777   # a non-integral flow (only reachable out of contract): not a legal model state
             elif arr[i]:
                 out[0] = -999999  # material outside the modelled chemicals: cannot be expressed
         return out
@@ -148,31 +150,40 @@ class World:
                 return [(UNIVERSAL[c], float(v)) for c, v in enumerate(vec) if v and UNIVERSAL[c] in ids]
             P = P_OF.get(r['P'], r['P'])
             if r['k'] == 's':
-                x = tmo.Stream(None, flows(r['fl'][r['ph'][0]]), thermo=th, T=r['T'], P=P, phase=r['ph'][0])
+                x = tmo.Stream(None, thermo=th, T=r['T'], P=P, phase=r['ph'][0], **dict(flows(r['fl'][r['ph'][0]])))
             else:
                 x = tmo.MultiStream(None, thermo=th, T=r['T'], P=P, phases=tuple(r['ph']),
-                                    **{p: flows(r['fl'][p]) for p in r['ph']})
+                                    **{p: flows(r['fl'][p]) for p in r['ph'] if flows(r['fl'][p])})
             x.price = r.get('price', 0)
             if r.get('cf'):
                 x.characterization_factors['GWP'] = r['cf']
             self.s[n] = x
-        # re-create sharing (single-phase streams only; the model links only those)
+        # re-create sharing of containers as the ids say
         for n in names:
             r = st[n]
             for m in names:
                 if m == n:
                     break
                 q = st[m]
-                if r['k'] == 's' and q['k'] == 's':
-                    flow, tp, ph = r['fr'] == q['fr'], r['tr'] == q['tr'], r['pr'] == q['pr']
-                    if flow or tp or ph:
-                        x, y = self.s[n], self.s[m]
-                        if tp:
-                            x._thermal_condition = y._thermal_condition
-                        if flow:
-                            x._imol.data = y._imol.data
-                        if ph:
-                            x._imol._phase = y._imol._phase
+                if r['k'] != q['k']:
+                    continue
+                flow, tp, ph = r['fr'] == q['fr'], r['tr'] == q['tr'], r['pr'] == q['pr']
+                if not (flow or tp or ph):
+                    continue
+                x, y = self.s[n], self.s[m]
+                if tp:
+                    x._thermal_condition = y._thermal_condition
+                if r['k'] == 's':
+                    if flow:
+                        x._imol.data = y._imol.data
+                    if ph:
+                        x._imol._phase = y._imol._phase
+                else:
+                    if ph:          # same indexer object (a proxy)
+                        x._imol = y._imol
+                    elif flow:
+                        x._imol.data = y._imol.data
+                    x.reset_cache()
         for n in names:
             snap = state['sv'][n]
             if snap.get('k', 'none') != 'none':
@@ -330,6 +341,12 @@ class World:
             S[a['d']].link_with(S[a['x']], flow=a['flow'], phase=a['phase'], TP=a['TP'])
         elif op == 'unlink':
             S[a['x']].unlink()
+        elif op == 'construct':
+            old = S[a['x']]
+            kw = dict(thermo=old._thermo, T=300, P=P_OF[100], price=a['price'],
+                      characterization_factors=({'GWP': a['cf']} if a['cf'] else None))
+            S[a['x']] = tmo.Stream(None, phase='l', **kw) if a['k'] == 's' else tmo.MultiStream(None, phases=('g', 'l'), **kw)
+            self.saved[a['x']] = None
         elif op == 'set_price':
             S[a['x']].price = float(a['v'])
         else:
@@ -396,6 +413,8 @@ def random_op(universe, rng, st, ops):
         return op, dict(x=x, p=rng.choice(st['st'][x]['ph']))
     if op in ('copy', 'pickle', 'copy_like', 'proxy', 'flow_proxy'):
         return op, dict(d=x, x=y)
+    if op == 'construct':
+        return op, dict(x=x, k=rng.choice(['s', 'm']), price=rng.choice([0, 3, 7]), cf=rng.choice([0, 5, 11]))
     if op == 'link_with':
         return op, dict(d=x, x=y, flow=rng.random() < 0.6, phase=rng.random() < 0.5, TP=rng.random() < 0.5)
     raise KeyError(op)
